@@ -24,3 +24,28 @@ for fname in ('dd_dtw.c', 'dd_ed.c', 'dd_dtw_openmp.c'):
 with open(os.path.join(os.path.dirname(os.path.abspath(__file__)), 'sa', 'baseline_funcs.json'), 'w') as f:
     json.dump(out, f, indent=0, sort_keys=True)
 print({k: len(v) for k, v in out.items()})
+
+# the IR of every function of the pinned tree (before name recovery / canonical ordering): the reference for sa/alpha.py
+import gzip
+import pickle
+ir = {}
+for name in sorted(pyfront.PY_MODULES):
+    try:
+        mod = pyfront.module(repo, name)
+    except Exception:  # noqa
+        continue
+    ir[name] = {q: (list(f.all_params), f.raw_body) for q, f in mod.funcs.items()}
+for name in sorted(pyxfront.PYX):
+    try:
+        full = 'dtaidistance.' + (name[:-4] if name.endswith('_pxd') else name)
+        mod = pyxfront.load(repo, pyxfront.PYX[name], full, use_cache=False)
+    except Exception as e:  # noqa
+        print('skip', name, e)
+        continue
+    ir['pyx:' + name] = {q: ([a.name for a in f.args] + ([f.vararg] if f.vararg else []) + ([f.kwarg] if f.kwarg else []), f.body) for q, f in mod.funcs.items() if f.body is not None}
+for fname in ('dd_dtw.c', 'dd_ed.c', 'dd_dtw_openmp.c'):
+    u = cfront.load_unit(repo, fname, use_cache=False)
+    ir[fname] = {q: ([p[0] for p in f.params], f.body) for q, f in u.funcs.items() if f.body is not None}
+with gzip.open(os.path.join(os.path.dirname(os.path.abspath(__file__)), 'sa', 'baseline_ir.pkl.gz'), 'wb') as f:
+    pickle.dump(ir, f, protocol=4)
+print('baseline IR functions:', sum(len(v) for v in ir.values()))
